@@ -2,6 +2,7 @@ package rules
 
 import (
 	"iocvet/internal/core"
+	"strings"
 )
 
 // extras: rules a property owes to mechanisms it shares with its siblings.  Every entry names the clause of the
@@ -17,6 +18,10 @@ var extras = map[string]ruleFn{
 		// "every required injection point populated by its target": a point wired by type is offered every component
 		// of the type (its target among them), whatever was processed before it
 		depTableRules(c, r, "C02.R14", "by-type-pointer", "by-type-interface", "no-error", "independent")
+		// "cycles of any length ... succeed": what a processor of the library answers when asked for an early reference
+		earlyReferenceImplRules(c, r, "C02.R15")
+		// "reported as an error (or left empty when optional)": what the narrowing stage does with a point nothing qualifies for
+		furtherRules(c, r, "C02.R16", "optional-cleared", "required-error")
 		if l := findLifecycle(c, r, "C02.R12"); l != nil {
 			populateRules(c, r, l, func(row string) string {
 				if row == "from-accessor" || row == "error" {
@@ -37,6 +42,13 @@ var extras = map[string]ruleFn{
 		// "every lookup by name refers to the one published version": the public lookups hand out what the registry publishes, and a name has one definition
 		lookupRules(c, r, "C03.R9")
 		definitionRegistryTables(c, r, "", "C03.R10")
+		// "start-up fails with an error instead of succeeding with mixed versions": the refusal raised while a
+		// post-processor is being created during the bootstrap reaches the caller
+		if bs, why := findBootstrap(c); bs != nil {
+			bsTable(c, r, bs, "C03.R11", map[string]bool{"error": true})
+		} else {
+			r.Undecided("C03.R11", "bootstrap", "", why)
+		}
 		if l := findLifecycle(c, r, "C03.R8"); l != nil {
 			populateRules(c, r, l, func(row string) string {
 				if row == "error" {
@@ -49,6 +61,11 @@ var extras = map[string]ruleFn{
 	// "every dependency ... has already completed its own initialization": candidates found by the processors reach
 	// the populator; post-processors are populated by the processors ordered before them
 	"C05": func(c *core.Ctx, r *core.Report) {
+		// created (and so initialised) are exactly the chosen candidates: a single-valued point keeps one
+		narrowRules(c, r, "C05.R10", "single-member", "slice-exact")
+		// which processors are active when a user post-processor is created depends on its position: the embeddable
+		// markers decide nothing but what they are named after
+		markerTypeRules(c, r, "C05.R11")
 		// every tagged field becomes an injection point that is populated before initialization; configuration is loaded before anything is created
 		fieldScanRules(c, r, "C05.R9")
 		propertyStoreRules(c, r, "C05.R9")
@@ -74,6 +91,17 @@ var extras = map[string]ruleFn{
 		// "fails with an error when the point is required and leaves the field untouched when it is optional":
 		// whatever the other points of the same holder do
 		furtherRules(c, r, "C07.R13", "required-error", "optional-cleared")
+		// ... also when the named component exists but cannot be created, and when the holder is a post-processor
+		if l := findLifecycle(c, r, "C07.R14"); l != nil {
+			populateRules(c, r, l, func(row string) string {
+				if row == "error" {
+					return "C07.R14"
+				}
+				return ""
+			})
+		}
+		chainActiveRules(c, r, "C07.R14")
+		injectRules(c, r, "C07.R15", "single", "nothing-to-inject")
 	},
 	// "required=false points that cannot be satisfied leave their field at its zero value"
 	"C09": func(c *core.Ctx, r *core.Report) {
@@ -95,9 +123,23 @@ var extras = map[string]ruleFn{
 		initErrorRules(c, r, "C09.E5", "sequence")
 		// "of an eagerly created component": which user components are eager does not depend on the base they embed
 		lazyBaseRules(c, r, "C09.E8")
+		// a failing creation or factory post-processor during the bootstrap ends it with that error
+		if bs, why := findBootstrap(c); bs != nil {
+			bsTable(c, r, bs, "C09.E10", map[string]bool{"error": true})
+		} else {
+			r.Undecided("C09.E10", "bootstrap", "", why)
+		}
 		// "does not panic": what a point wired by type is offered are the registry's components of exactly that type
 		// (anything else makes the reflect write of the injection panic)
 		depTableRules(c, r, "C09.E9", "by-type-pointer", "by-type-interface", "no-error")
+		// an optional value that is not configured never fails: the placeholder stage reports no error for it
+		presenceRules(c, r, "C09.E11")
+		// post-processors are eager components too: created with the processors before them active
+		if bs, why := findBootstrap(c); bs != nil {
+			bsTable(c, r, bs, "C09.E12", map[string]bool{"eager-create": true, "chain-active": true})
+		} else {
+			r.Undecided("C09.E12", "bootstrap", "", why)
+		}
 	},
 	// "only components whose declared qualifier is in the requested set": qualifier texts are compared exactly
 	// "a unique component without a custom name wins": which components count as custom-named
@@ -123,6 +165,14 @@ var extras = map[string]ruleFn{
 		processorOrderRules(c, r, "C10.R10")
 		// the property list arrives in map order: no processor hands anything from one property to the next
 		noCarriedStateRules(c, r, "C10.R11")
+		// whether a processor is consulted does not depend on which processor was registered last; a failing
+		// factory post-processor fails the start wherever it stands in the enumeration
+		refiled(c, r, "C10.R12", func(sub *core.Report) { c03Flags(c, sub) })
+		if bs, why := findBootstrap(c); bs != nil {
+			bsTable(c, r, bs, "C10.R12", map[string]bool{"error": true})
+		} else {
+			r.Undecided("C10.R12", "bootstrap", "", why)
+		}
 	},
 	// "receives ... the tag's value and arguments"; every processor sees every property
 	"C11": func(c *core.Ctx, r *core.Report) {
@@ -133,6 +183,14 @@ var extras = map[string]ruleFn{
 		propertyStoreRules(c, r, "C11.R9")
 		// "receives exactly the fields carrying its tag": whatever an earlier processor did to the list it was handed
 		ownListRules(c, r, "C11.R11")
+		// every scanner is shown every registered component (so every tagged field of every component is recorded)
+		defScanRules(c, r, func(row string) string {
+			if row == "all-entries" {
+				return "C11.R12"
+			}
+			return ""
+		})
+		injectRules(c, r, "C11.R12", "wrong-property-type")
 	},
 	// "every registered runner is invoked": the runner collection is complete
 	"C13": func(c *core.Ctx, r *core.Report) {
@@ -146,6 +204,7 @@ var extras = map[string]ruleFn{
 		collectionRules(c, r, "C13.R6", findLifecycle(c, r, "C13.R6"))
 		// "every registered application runner": each registered name keeps a definition of its own, so it is created
 		definitionRegistryTables(c, r, "", "C13.R10")
+		componentMapCompleteRules(c, r, "C13.R11")
 	},
 	// "every registered closer is closed exactly once": the closer collection is complete and duplicate-free
 	"C14": func(c *core.Ctx, r *core.Report) {
@@ -154,11 +213,17 @@ var extras = map[string]ruleFn{
 		propsStageRules(c, r, "C14.R7")
 		tagScanRules(c, r, "C14.R7")
 		collectionRules(c, r, "C14.R7", findLifecycle(c, r, "C14.R7"))
+		// "every registered closer": whatever else a closer is (a lazy post-processor, say), it gets a definition
+		componentMapCompleteRules(c, r, "C14.R10")
+		// the closer collection is a slice point: it receives every qualifying candidate
+		narrowRules(c, r, "C14.R11", "slice-exact", "no-panic")
 	},
 	// "the others in the order they were added": the ordering helper keeps unordered participants in place;
 	// what was merged or set last is what lookups see
 	"C15": func(c *core.Ctx, r *core.Report) {
 		optionRules(c, r, "C15.R3")
+		// options registered for the whole process (app.Settings) are all kept
+		globalSettingsRules(c, r, "C15.R11")
 		sorterRules(c, r, "C15.R9")
 		binderRules(c, r, "C15.R10")
 	},
@@ -179,6 +244,12 @@ var extras = map[string]ruleFn{
 		binderRules(c, r, "C16.R8")
 		chainActiveRules(c, r, "C16.R9")
 		propsStageRules(c, r, "C16.R9")
+		// "replaced by the configured value": the configuration is loaded before anything is populated
+		runPhaseRules(c, r, "C16.R11")
+		// "processed as if it had been written with the replacement text": the consumers of a component tag read
+		// the substituted text; the tag's text reaches the parser with its bracketed groups intact
+		depTableRules(c, r, "C16.R12", "by-name", "by-type-pointer", "by-type-interface", "func-predicate")
+		tagRules(c, r, "C16.R12", "value", "arguments")
 	},
 	// "the field receives the expression's result": binding writes a fresh value
 	"C18": func(c *core.Ctx, r *core.Report) {
@@ -199,6 +270,18 @@ var extras = map[string]ruleFn{
 		presenceRules(c, r, "C18.R9")
 		setValueRules(c, r, "C18.R5")
 		validatorConfigRules(c, r, "C18.R6")
+		// a field (also an embedded block carrying a tag) is recorded so that it is bound and validated at all
+		fieldScanRules(c, r, "C18.R11")
+		// "the field receives the expression's result": a result the field cannot hold is an error, not a silent zero
+		refiledWhere(c, r, "C18.R12", func(sub *core.Report) {
+			if prop := c.Named("component_definition", "Property"); prop != nil {
+				if unm := c.DeclaredMethod(prop, "Unmarshall"); unm != nil {
+					c17Decoder(c, sub, unm)
+				}
+			}
+		}, func(o *core.Obligation) bool {
+			return strings.HasSuffix(o.Construct, ":error") || o.Verdict != core.Held
+		})
 	},
 	// the scanner hands the tag text to the parser unchanged
 	"C19": func(c *core.Ctx, r *core.Report) {
@@ -215,6 +298,8 @@ var extras = map[string]ruleFn{
 			return
 		}
 		trs.report(c, r, tfn, func(string) string { return "C19.R7" }, "tag-scan-table@"+core.FnName(tfn), tagScanRows)
+		// "whose name is matched regardless of the case of its first letter": and only of that letter
+		argumentNameRules(c, r, "C19.R10")
 	},
 	"C01": func(c *core.Ctx, r *core.Report) {
 		// "no holder ever ends up with a second copy": nothing evicts a published singleton (a re-creation would hand later holders another instance)
@@ -225,6 +310,9 @@ var extras = map[string]ruleFn{
 		// what is copied into the holders (the definition's Value) is the reflect value of the very object lookups
 		// return (its Raw): a definition describes one object
 		isSelfTable(c, r, "C01.R12")
+		// "no holder ever ends up with a ... different version": the creation routine asks for the early reference
+		// only after initialization, when no new one can be handed out any more
+		exposerRowRules(c, r, "C01.R13", "lookup-after-init", "stale-detected")
 	},
 	"C06": func(c *core.Ctx, r *core.Report) {
 		// completeness: every processor that collects candidates runs for every holder, and every component has a definition
@@ -234,6 +322,16 @@ var extras = map[string]ruleFn{
 		fieldScanRules(c, r, "C06.R9")
 		// "receives every such component": every registered name has a definition of its own to be enumerated
 		definitionRegistryTables(c, r, "", "C06.R10")
+		componentMapCompleteRules(c, r, "C06.R11")
+		// "receives every such component": a candidate that cannot be created fails its holder, it is not left out
+		if l := findLifecycle(c, r, "C06.R12"); l != nil {
+			populateRules(c, r, l, func(row string) string {
+				if row == "error" {
+					return "C06.R12"
+				}
+				return ""
+			})
+		}
 	},
 	"C12": func(c *core.Ctx, r *core.Report) {
 		markerTypeRules(c, r, "C12.R7")
@@ -255,6 +353,8 @@ var extras = map[string]ruleFn{
 		fieldScanRules(c, r, "C17.R9")
 		chainActiveRules(c, r, "C17.R9")
 		propsStageRules(c, r, "C17.R9")
+		// the properties two scanners record on one definition are all kept
+		propertyStoreRules(c, r, "C17.R12")
 	},
 	// "never returns the half-built instance as if it had been created": an initialization that failed is a failed creation, every time
 	"C04": func(c *core.Ctx, r *core.Report) {
